@@ -12,6 +12,10 @@ OUT = '/verif/mutants'
 
 # (name, properties, tier, file, old, new, comment)
 CAT = [
+    ('m_c17_unsupported_interface_cached', 'C17', 'quick', 'txdbus/objects.py',
+     "            else:\n                # nothing may be cached for this class on behalf of an\n                # object that does not support the property's interface\n                raise AttributeError(",
+     "            else:\n                # nothing may be cached for this class on behalf of an\n                # object that does not support the property's interface\n                AttributeError(",
+     'a property whose interface the object lacks is cached half-resolved on the shared base class (the original defect)'),
     ('m_c16_gmo_exception_escapes', 'C16', 'quick', 'txdbus/objects.py',
      "            except Exception as e:\n                # a property value that cannot be encoded must not cost the\n",
      "            except ZeroDivisionError as e:\n                # a property value that cannot be encoded must not cost the\n",
